@@ -15,6 +15,18 @@ def loop_call_value(ghost, f, args, kwargs, node):
 def asyncio_call(ghost, name, args, kwargs, node):
     from .objects import FuncV, BoundMethod
 
+    I = ghost.I
+    if name in ("get_event_loop", "get_running_loop"):
+        if ghost.loop is None:
+            raise OutsideSubset(f"asyncio.{name}() but the harness installed no event-loop model")
+        return ghost.loop
+    if name in ("create_task", "ensure_future"):
+        if ghost.loop is None:
+            raise OutsideSubset("asyncio.create_task() but the harness installed no event-loop model")
+        return I.call(I.getattr(ghost.loop, "create_task", node), [args[0]], {}, node)
+    if name == "Event":
+        mod = I.load_module("contracts.looplib")
+        return I.call(mod.ns["Event"], [], {}, node)
     if name == "iscoroutinefunction":
         f = args[0]
         if isinstance(f, BoundMethod):
